@@ -368,12 +368,12 @@ fn key() -> impl Strategy<Value = u32> {
 fn op_strategy(f: Focus, has_loader: bool, is_b: bool) -> BoxedStrategy<POp> {
   // weights: [insert, insert_ttl, remove/invalidate, clear, reads, entry-get, or_insert, compute, fetch_with, multi_insert, multi_remove, maint]
   let w: [u32; 12] = match f {
-    Focus::C11 => [8, 1, 6, 1, 5, 1, 12, 12, 3, 2, 2, 1],
+    Focus::C11 => [8, 1, 6, 1, 5, 3, 16, 12, 3, 2, 2, 1],
     // C12: A mostly dwells in a closure under the shard lock, B mostly reads
     Focus::C12 if !is_b => [2, 1, 1, 1, 4, 6, 12, 16, 4, 1, 1, 1],
     Focus::C12 => [2, 1, 2, 1, 14, 3, 2, 2, 22, 1, 1, 1],
-    Focus::C13 => [14, 2, 8, 6, 1, 1, 6, 2, 4, 4, 4, 2],
-    Focus::C15 => [4, 1, 4, 1, 3, 1, 2, 2, 30, 1, 1, 1],
+    Focus::C13 => [14, 2, 8, 6, 1, 1, 6, 2, 4, 4, 4, 6],
+    Focus::C15 => [4, 1, 4, 1, 3, 1, 2, 2, 45, 1, 1, 1],
     Focus::C16 => [8, 1, 12, 3, 2, 1, 4, 2, 3, 2, 8, 2],
   };
   let a = || any::<bool>();
@@ -455,7 +455,7 @@ pub fn scenario_strategy(f: Focus) -> impl Strategy<Value = Scenario> {
     Focus::C11 => (20, 40, 15, 10),
     Focus::C12 => (95, 85, 10, 75),
     Focus::C13 => (15, 30, 15, 5),
-    Focus::C15 => (45, 100, 10, 10),
+    Focus::C15 => (60, 100, 10, 10),
     Focus::C16 => (25, 25, 100, 10),
   };
   let pol = prop_oneof![5 => Just(Pol::Default), 1 => Just(Pol::Custom(Kind::Lru)), 1 => Just(Pol::Custom(Kind::Fifo)), 1 => Just(Pol::Custom(Kind::Sieve)), 1 => Just(Pol::Custom(Kind::Clock))];
@@ -465,7 +465,7 @@ pub fn scenario_strategy(f: Focus) -> impl Strategy<Value = Scenario> {
     pol,
     prop::bool::weighted(p_ttl as f64 / 100.0),
     prop_oneof![Just(10u64), Just(50u64)],
-    prop::bool::weighted(0.6),
+    prop::bool::weighted(if f == Focus::C15 { 0.75 } else { 0.6 }),
     prop::bool::weighted(p_listener as f64 / 100.0),
     (prop::bool::weighted(p_loader as f64 / 100.0), any::<bool>()),
     0u8..4,
@@ -500,14 +500,29 @@ pub fn scenario_strategy(f: Focus) -> impl Strategy<Value = Scenario> {
     let hl = cfg.loader != PLoader::None;
     let timed = cfg.ttl_ms.is_some();
     let step = if timed { proptest::option::weighted(p_step as f64 / 100.0, prop_oneof![Just(1u16), Just(9), Just(10), Just(11), Just(40), Just(49), Just(50), Just(51), Just(60), Just(100), Just(101)]).boxed() } else { Just(None::<u16>).boxed() };
-    let pause = || prop_oneof![6 => any::<u16>().prop_map(PausePt::Nth), 2 => Just(PausePt::Closure), 2 => Just(PausePt::Loader)];
+    let pause = move |is_b: bool| {
+      // [n-th event, first closure entry, first loader entry]
+      let w: [u32; 3] = match (f, is_b) {
+        (Focus::C11, _) => [17, 2, 1],
+        (Focus::C15, false) => [11, 2, 7],
+        (Focus::C15, true) => [16, 2, 2],
+        (Focus::C12, false) => [10, 9, 1],
+        _ => [12, 4, 4],
+      };
+      prop_oneof![w[0] => any::<u16>().prop_map(PausePt::Nth), w[1] => Just(PausePt::Closure), w[2] => Just(PausePt::Loader)]
+    };
+    let (p_pb, p_same) = match f {
+      Focus::C15 => (0.7, 0.5),
+      Focus::C11 => (0.35, 0.75),
+      _ => (0.35, 0.6),
+    };
     // "expiry prelude": load / insert the key of A (or B) and let its lifetime pass by `x` ms
     let prelude = proptest::option::weighted(if timed { 0.6 } else { 0.01 }, (any::<bool>(), any::<bool>(), prop_oneof![Just(0u16), Just(1), Just(9), Just(40), Just(49), Just(50), Just(51)]));
     (
       Just(cfg),
-      proptest::collection::vec(setup_strategy(hl, timed), 0..6),
-      (op_strategy(f, hl, false), proptest::option::weighted(0.93, pause())),
-      (op_strategy(f, hl, true), proptest::option::weighted(if f == Focus::C15 { 0.55 } else { 0.35 }, pause()), prop::bool::weighted(0.6)),
+      proptest::collection::vec(setup_strategy(hl, timed), 0..if f == Focus::C15 { 4 } else { 6 }),
+      (op_strategy(f, hl, false), proptest::option::weighted(0.93, pause(false))),
+      (op_strategy(f, hl, true), proptest::option::weighted(p_pb, pause(true)), prop::bool::weighted(p_same)),
       step,
       (proptest::collection::vec((suffix_strategy(hl), prop::bool::weighted(0.7)), 0..4), prelude),
     )
@@ -1766,7 +1781,10 @@ pub fn execute(sc: &Scenario) -> Result<CaseReport, Failure> {
 pub fn check(check: &mut Check) {
   let ctx = check.ctx.clone();
   let focus = Focus::of(&ctx.property);
-  let n = if focus == Focus::C15 { ctx.tier.pick(2_000u64, 300_000u64) } else { ctx.tier.pick(2_500u64, 400_000u64) };
+  let n = match focus {
+    Focus::C11 | Focus::C15 => ctx.tier.pick(3_000u64, 300_000u64),
+    _ => ctx.tier.pick(2_500u64, 300_000u64),
+  };
   let n = std::env::var("VERIF_PAIR_CASES").ok().and_then(|s| s.parse().ok()).unwrap_or(n); // development aid
   // Shrinking budget: a failing pair costs a few pause timeouts per execution and proptest may try
   // thousands of simplifications; 25 s after the first failure only scenarios already known to fail are
